@@ -17,7 +17,7 @@ for t, k in combos():
 
 # T-Seq / T-SeqX: with a symbolic split point the solver needs > 240 s; the split point is enumerated instead
 # (every k that can be a proper prefix of some value's encoding), values and presence flags stay symbolic
-for t, k, kmax in (('T_Seq', 'der', 13), ('T_Seq', 'oer', 5), ('T_SeqX', 'der', 12)):
+for t, k, kmax in (('T_Seq', 'der', 12), ('T_Seq', 'oer', 1), ('T_SeqX', 'der', 12)):
     for kk in range(0, kmax + 1):
         HARNESSES.append(typed(H, 'chunkk_%s_%s_k%d' % (t, k, kk), 'typed/dec_chunked.c', t, k, leak=True, defines=['-DFIXED_K=%d' % kk],
                                tiers=('quick', 'thorough') if t == 'T_Seq' else ('thorough',),
